@@ -24,12 +24,12 @@ git apply --check $SRC/patch.diff || { echo "RESULT: patch does not apply"; res=
 if [ $res = ok ]; then
   cp $SRC/demo_test.go $DEMO_PATH
   echo "--- demo WITHOUT patch (expect PASS)"
-  if timeout 600 $DEMO_RUN > /tmp/confirm_${ID}_$V.nopatch.out 2>&1; then echo PASS; else echo "FAIL (unexpected)"; tail -20 /tmp/confirm_${ID}_$V.nopatch.out; res=bad; fi
+  if timeout 600 bash -c "$DEMO_RUN" > /tmp/confirm_${ID}_$V.nopatch.out 2>&1 && ! grep -q "no tests to run" /tmp/confirm_${ID}_$V.nopatch.out; then echo PASS; else echo "FAIL (unexpected)"; tail -20 /tmp/confirm_${ID}_$V.nopatch.out; res=bad; fi
   git apply $SRC/patch.diff
   echo "--- build with patch"
   if go build ./pkg/... ./cmd/... ; then echo BUILD-OK; else echo BUILD-FAIL; res=bad; fi
   echo "--- demo WITH patch (expect FAIL)"
-  if timeout 600 $DEMO_RUN > /tmp/confirm_${ID}_$V.patch.out 2>&1; then echo "PASS (unexpected)"; res=bad; else echo FAIL-as-expected; grep -E "^(--- FAIL|panic:|FAIL)" /tmp/confirm_${ID}_$V.patch.out | head -5; fi
+  if timeout 600 bash -c "$DEMO_RUN" > /tmp/confirm_${ID}_$V.patch.out 2>&1; then echo "PASS (unexpected)"; res=bad; else echo FAIL-as-expected; grep -E "^(--- FAIL|panic:|FAIL)" /tmp/confirm_${ID}_$V.patch.out | head -5; fi
   rm -f $DEMO_PATH
   echo "--- existing tests of touched packages with patch"
   for p in $PKGS; do
